@@ -1,0 +1,89 @@
+//! Verification hooks (compiled only with `--cfg rustpython_parser_verif`).
+//!
+//! Thread-local work counters used by the external verification harness:
+//! * `reduce(action)` — called once per LR reduction (python.rs `__reduce`);
+//! * `tick()` — called once per iteration of every lexer / soft-keyword loop; panics with a
+//!   recognisable message once more than `fuel` ticks were spent, which turns a loop that
+//!   stopped making progress into a deterministic, schedule-independent failure.
+//!
+//! Verdicts about parse results never depend on these counters.
+use std::cell::RefCell;
+
+pub const N_ACTIONS: usize = 1024;
+
+pub struct State {
+    pub reductions: [u32; N_ACTIONS],
+    pub reductions_total: u64,
+    pub ticks: u64,
+    pub fuel: u64,
+}
+
+pub struct Snapshot {
+    pub reductions_total: u64,
+    pub ticks: u64,
+    pub fuel: u64,
+}
+
+thread_local! {
+    static STATE: RefCell<State> = RefCell::new(State {
+        reductions: [0; N_ACTIONS],
+        reductions_total: 0,
+        ticks: 0,
+        fuel: u64::MAX,
+    });
+}
+
+/// Reset the work counters (not the per-production histogram) and set the tick budget.
+pub fn reset(fuel: u64) {
+    STATE.with(|s| {
+        let mut s = s.borrow_mut();
+        s.reductions_total = 0;
+        s.ticks = 0;
+        s.fuel = fuel;
+    });
+}
+
+pub fn snapshot() -> Snapshot {
+    STATE.with(|s| {
+        let s = s.borrow();
+        Snapshot {
+            reductions_total: s.reductions_total,
+            ticks: s.ticks,
+            fuel: s.fuel,
+        }
+    })
+}
+
+/// Per-production hit counts since the last `clear_histogram`.
+pub fn histogram() -> Vec<u32> {
+    STATE.with(|s| s.borrow().reductions.to_vec())
+}
+
+pub fn clear_histogram() {
+    STATE.with(|s| s.borrow_mut().reductions = [0; N_ACTIONS]);
+}
+
+#[inline]
+pub fn reduce(action: i16) {
+    STATE.with(|s| {
+        let mut s = s.borrow_mut();
+        s.reductions_total += 1;
+        if let Some(slot) = s.reductions.get_mut(action as usize) {
+            *slot = slot.saturating_add(1);
+        }
+    });
+}
+
+#[inline]
+pub fn tick() {
+    let exhausted = STATE.with(|s| {
+        let mut s = s.borrow_mut();
+        s.ticks += 1;
+        s.ticks > s.fuel
+    });
+    if exhausted {
+        // disarm so that unwinding code that ticks again does not double panic
+        STATE.with(|s| s.borrow_mut().fuel = u64::MAX);
+        panic!("verif_hooks: loop fuel exhausted");
+    }
+}
